@@ -48,7 +48,7 @@ Write(k) ==
             THEN fstack' = SubSeq(fstack, 1, Len(fstack) - 2) /\ UNCHANGED <<fitems, fts, nrub, ignored>>
             ELSE ignored' = ignored + 1 /\ UNCHANGED <<fstack, fitems, fts, nrub>>
        [] fr.f = "text" ->
-            /\ fitems' = fitems \o [j \in 1..Len(fr.data) |-> IF fr.data[j] = LF THEN BrItem ELSE ItemOf(fr.data[j], fstack, fts)]
+            /\ fitems' = fitems \o [j \in 1..Len(fr.data) |-> ItemOrBr(fr.data[j], fstack, fts)]
             /\ UNCHANGED <<fstack, fts, nrub, ignored>>
        [] fr.f = "ts" -> fts' = fr.t /\ UNCHANGED <<fstack, fitems, nrub, ignored>>
   /\ UNCHANGED done
